@@ -309,6 +309,9 @@ RunResult run_map(const Program &p, bool trace) {
             sim::Rng r(sim::mix64(p.getu("seed"), op.arg(0) + 77));
             int remove_pct = (int)(op.arg(1) % 101), set_pct = (int)(op.arg(2) % 101);
             long stop_at = op.arg(3);
+            int again_pct = (int)(op.arg(4, 0) % 101);
+            sim::Rng r2(sim::mix64(p.getu("seed"), op.arg(0) + 277));
+            bool loose = false;
             std::set<std::string> live;
             for (auto &kv : D->model) live.insert(kv.first);
             std::vector<std::string> visited;
@@ -342,6 +345,17 @@ RunResult run_map(const Program &p, bool trace) {
                     D->model.erase(it);
                     removed.push_back(val);
                     D->iter_removals++;
+                    // Right after a removal the iterator has no current entry (its own getters say so). An edit attempted now must be
+                    // refused: there is nothing it could legitimately act on
+                    if ((int)r2.below(100) < again_pct) {
+                        sim::R->ctr.probe("map_itr_edit_right_after_remove");
+                        bool no_current = m_map_itr_get_key(itr) == nullptr;
+                        bool do_set = r2.below(2) == 0;
+                        int rc2 = do_set ? m_map_itr_set_data(itr, cell(D->next_val)) : m_map_itr_remove(itr);
+                        if (rc2 == 0 && no_current)
+                            VIOL("C05", do_set ? "C05:itr-set-without-current-accepted" : "C05:itr-remove-without-current-accepted", "m_map_itr_%s right after a removal (no current entry: the key getter returns NULL) returned 0", do_set ? "set_data" : "remove");
+                        if (rc2 == 0) { D->next_val++; loose = true; }
+                    }
                 } else if (a < remove_pct + set_pct) {
                     long nv = D->next_val++;
                     int rc = m_map_itr_set_data(itr, cell(nv));
@@ -354,9 +368,12 @@ RunResult run_map(const Program &p, bool trace) {
                 m_map_itr_next(&itr);
             }
             sim::tr("map_itr", (long)visited.size(), (long)removed.size());
-            check_visits(visited, live, !stopped && !(fired && visited.empty()), "iterator");
-            expect_dlog(removed, "iterator", replaced);
-            verify({}, true);
+            if (loose) { sim::tr("map_itr_loose"); }   // (an accepted edit without a current entry was reported above; nothing further is checked on this walk)
+            else {
+                check_visits(visited, live, !stopped && !(fired && visited.empty()), "iterator");
+                expect_dlog(removed, "iterator", replaced);
+                verify({}, true);
+            }
         } else if (n == "clear") {
             std::vector<long> exp;
             for (auto &kv : D->model) exp.push_back(kv.second);
@@ -450,7 +467,7 @@ Program gen_map(uint64_t seed, bool thorough) {
         case 2: p.add("D", "get", {(long)r.below(nkeys)}); break;
         case 3: p.add("D", "remove", {(long)r.below(nkeys)}); break;
         case 4: p.add("D", "iterate", {(long)r.below(100000), (long)(r.chance(0.5) ? r.below(101) : 0), r.chance(0.2) ? (long)r.below(6) : -1, r.chance(0.5) ? 1 : -1}); break;
-        case 5: p.add("D", "itr", {(long)r.below(100000), (long)(r.chance(0.6) ? r.below(101) : 0), (long)(r.chance(0.3) ? r.below(40) : 0), r.chance(0.15) ? (long)r.below(6) : -1}); break;
+        case 5: p.add("D", "itr", {(long)r.below(100000), (long)(r.chance(0.6) ? r.below(101) : 0), (long)(r.chance(0.3) ? r.below(40) : 0), r.chance(0.15) ? (long)r.below(6) : -1, (long)(r.chance(0.3) ? r.below(101) : 0)}); break;
         case 6: p.add("D", "clear"); break;
         case 7: p.add("D", "free"); break;
         case 8: p.add("D", "new", {(long)r.below(4) | (r.chance(0.5) ? (long)M_MAP_VAL_ALLOW_UPDATE : 0), r.chance(0.8) ? 1 : 0}); break;
